@@ -507,6 +507,7 @@ def run_case(case, R):
 LEVEL_TEXT = ('Complete enumeration of a stated value lattice over every field of every record kind in the four live '
               'format tables (exhaustive for that lattice: exponents -120..120 in thorough, 21 boundary exponents in quick), '
               'plus Hypothesis whole-record generation. Oracle: per-field parse-back with sentinel neighbours. '
+              'Also: generated data models with boundary / absent values written and read back by the library\'s own file writers and readers, and unwritable values handed to t2incon.write / mulgrid.write (loud failure or complete file). '
               'Refutes only; the lattice is finite, the reals are not.')
 LEVEL_NOTE = ('Trusted: Python % formatting as the definition of "the printed digits"; the format tables are read from the '
               'live modules, so a new field is picked up automatically.')
